@@ -258,4 +258,38 @@ ITensordotFused(a0, b0, axa, axb) ==
               cr == IF Len(right) > 1 THEN IUnfuse(cf, Rank(cf)) ELSE cf
           IN IF Len(left) > 1 THEN IUnfuse(cr, 1) ELSE cr
 
+---------------------------------------------------------------------------
+\* building inputs exactly as harness/descriptors.py does (counting fill, real data)
+RECURSIVE ProdSeqs(_)
+ProdSeqs(lists) == IF lists = <<>> THEN <<<<>>>>
+                   ELSE LET rest == ProdSeqs(Tail(lists))
+                            h == Head(lists)
+                        IN FlattenSeq([i \in 1..Len(h) |-> [j \in 1..Len(rest) |-> <<h[i]>> \o rest[j]]])
+ValidSectorSeqS(sym, ixs, charge) ==
+  SelectSeq(ProdSeqs([i \in 1..Len(ixs) |-> [k \in 1..Len(ixs[i].cm) |-> ixs[i].cm[k].c]]),
+            LAMBDA s : SignedCombine(sym, s, [i \in 1..Len(ixs) |-> ixs[i].dual]) = charge)
+FillVal(start, n) == LET v == start + n - 1 IN IF n % 3 = 0 THEN 0 - v ELSE v
+\* desc = [ix : Seq([dual, cm]), charge, drop : set of 0-based sector positions, start, phases : set of 0-based stored positions, oddpos]
+BuildArray(sym, kind, d) ==
+  LET ixs == [i \in 1..Len(d.ix) |-> [dual |-> d.ix[i].dual, cm |-> d.ix[i].cm, sub |-> <<>>]]
+      secs == ValidSectorSeqS(sym, ixs, d.charge)
+      shape(s) == [i \in 1..Len(s) |-> SizeOf(ixs[i], s[i])]
+      before(k) == SumSeqInt([j \in 1..(k - 1) |-> ProdSeq(shape(secs[j]))])
+      keep == SelectSeq([k \in 1..Len(secs) |-> k], LAMBDA k : (k - 1) \notin d.drop)
+      blocks == [j \in 1..Len(keep) |->
+                   LET k == keep[j] IN
+                   [s |-> secs[k], shape |-> shape(secs[k]),
+                    data |-> [p \in 1..ProdSeq(shape(secs[k])) |-> <<FillVal(d.start, before(k) + p), 0>>],
+                    dt |-> "float64", exact |-> TRUE]]
+      odd == Parity(sym, d.charge) = 1
+  IN [t |-> "array", kind |-> kind, cls |-> IF sym = "Z4" THEN "dynamic" ELSE "static", sym |-> sym, charge |-> d.charge,
+      ix |-> ixs, blocks |-> blocks,
+      phases |-> IF kind = "fermionic"
+                 THEN [j \in 1..Cardinality({q \in d.phases : q < Len(keep)}) |->
+                         [s |-> blocks[SetToSortSeq({q \in d.phases : q < Len(keep)}, <)[j] + 1].s, p |-> -1]]
+                 ELSE <<>>,
+      oddpos |-> IF kind = "fermionic" /\ odd THEN <<[label |-> d.oddpos, dual |-> FALSE]>> ELSE <<>>,
+      ids |-> [blocks |-> 0, phases |-> 0]]
+
+
 =============================================================================
